@@ -4477,36 +4477,62 @@ impl Lexer<'_> {
                 self.push_mode(LexerMode::WsOrCStyleCommentOnly);
             }
             '%' if is_valid_unicode_sas_name_start(self.cursor.peek_next()) => {
+                // Save the position in the mode stack and the checkpoint state before
+                // macro lexing kicks in, which may add new modes and set a checkpoint
+                let mode_stack_len = self.mode_stack.len();
+                let had_checkpoint = self.checkpoint.is_some();
+
                 self.start_token();
                 self.lex_macro_identifier(false);
+
+                // Macro lexing only ever adds modes, but stay on the safe side
+                let mode_stack_len = mode_stack_len.min(self.mode_stack.len());
 
                 // This may be both %do %while/until or %do %mcall_that_creates_iter_var
                 // so we need to fork on the type of the last token. For %while/until
                 // we do nothing because lexer above has already set the mode stack,
-                // for the macro call we do the same as for all other symbols - push the,
+                // for the macro call we do the same as for all other symbols - expect the
                 // name expression mode, except that we know we've found at least the start
                 if self.buffer.last_token_info().is_some_and(|ti| {
                     ![TokenType::KwmUntil, TokenType::KwmWhile].contains(&ti.token_type)
                 }) {
-                    self.push_mode(LexerMode::MacroEval {
-                        macro_eval_flags: MacroEvalExprFlags::new(
-                            MacroEvalNumericMode::Integer,
-                            MacroEvalNextArgumentMode::None,
-                            true,
-                            true,
-                            false, // doesn't matter really
-                        ),
-                        pnl: 0,
-                    });
-                    self.push_mode(LexerMode::WsOrCStyleCommentOnly);
-                    self.push_mode(LexerMode::ExpectSymbol(
-                        TokenType::ASSIGN,
-                        TokenChannel::DEFAULT,
-                    ));
-                    self.push_mode(LexerMode::WsOrCStyleCommentOnly);
+                    // The rest of the loop variable name expression may only be lexed after
+                    // the macro call (or statement) is fully lexed, including its optional
+                    // arguments, which uses the checkpoint. Hence the modes go "after"
+                    // (meaning with index below) the modes populated by the macro lexing,
+                    // in the order we expect them to be handled, not reverse.
                     // Note the difference from below. We already lexed one part of the var name expr,
                     // so we pass `true` and do not pass error, since it won't ever be emitted anyway
-                    self.push_mode(LexerMode::MacroNameExpr(true, None));
+                    self.mode_stack
+                        .insert(mode_stack_len, LexerMode::MacroNameExpr(true, None));
+                    self.mode_stack
+                        .insert(mode_stack_len, LexerMode::WsOrCStyleCommentOnly);
+                    self.mode_stack.insert(
+                        mode_stack_len,
+                        LexerMode::ExpectSymbol(TokenType::ASSIGN, TokenChannel::DEFAULT),
+                    );
+                    self.mode_stack
+                        .insert(mode_stack_len, LexerMode::WsOrCStyleCommentOnly);
+                    self.mode_stack.insert(
+                        mode_stack_len,
+                        LexerMode::MacroEval {
+                            macro_eval_flags: MacroEvalExprFlags::new(
+                                MacroEvalNumericMode::Integer,
+                                MacroEvalNextArgumentMode::None,
+                                true,
+                                true,
+                                false, // doesn't matter really
+                            ),
+                            pnl: 0,
+                        },
+                    );
+
+                    // A rollback of the checkpoint set by the macro call lexing must keep them
+                    if !had_checkpoint {
+                        if let Some(checkpoint) = self.checkpoint.as_mut() {
+                            checkpoint.mode_stack_len += 5;
+                        }
+                    }
                 }
             }
             _ => {
